@@ -837,15 +837,19 @@ func createAssociationFromConfigWithTsn(cfg *Config, tsn uint32) *Association {
 		handshakeCompletedCh:    make(chan error),
 		cumulativeTSNAckPoint:   tsn - 1,
 		advancedPeerTSNAckPoint: tsn - 1,
-		recvZeroChecksum:        cfg.EnableZeroChecksum,
-		localInterleaving:       cfg.enableInterleaving,
-		silentError:             ErrSilentlyDiscard,
-		stats:                   &associationStats{},
-		log:                     cfg.LoggerFactory.NewLogger("sctp"),
-		name:                    cfg.Name,
-		blockWrite:              cfg.BlockWrite,
-		writeNotify:             make(chan struct{}, 1),
-		abortSentCh:             make(chan struct{}),
+		// nothing has been delivered yet: the high-water mark for RACK reordering detection
+		// starts right below the first TSN, like the ack points (not at 0, which is "after"
+		// every initial TSN in the upper half of the number space)
+		rackHighestDeliveredOrigTSN: tsn - 1,
+		recvZeroChecksum:            cfg.EnableZeroChecksum,
+		localInterleaving:           cfg.enableInterleaving,
+		silentError:                 ErrSilentlyDiscard,
+		stats:                       &associationStats{},
+		log:                         cfg.LoggerFactory.NewLogger("sctp"),
+		name:                        cfg.Name,
+		blockWrite:                  cfg.BlockWrite,
+		writeNotify:                 make(chan struct{}, 1),
+		abortSentCh:                 make(chan struct{}),
 	}
 
 	// adaptive burst mitigation defaults
